@@ -663,7 +663,7 @@ func checkGCExclusion(r *Run, p *Prog, la *LockAnalysis) {
 		return
 	}
 	c := p.CFG(gc)
-	fcalls := CallsIn(gc, calleeIs(gcf))
+	fcalls := callsReaching(p, gc, gcf)
 	if len(fcalls) == 0 {
 		r.Undecide("C04.R3: GarbageCollect does not call garbageCollectFile")
 		return
